@@ -60,7 +60,8 @@ pub enum SOp {
     /// to the results of the history)
     Zombie(u8),
     /// signals a process sends to itself while it blocks and unblocks them, all
-    /// with a handler installed: steps (0 block / 1 unblock / 2 raise / 4 ignore / 5 catch again / 3 note
+    /// with a handler installed: steps (0 block / 1 unblock / 2 raise / 4 ignore / 6 default (only while
+    /// blocked) / 5 catch again / 3 note
     /// which handlers have run since the last note, signal index into TSTP TTIN
     /// CONT USR1 TERM); ends with "unblock all, note". Decides what stays
     /// pending: a SIGCONT discards pending stop signals and a stop signal a
@@ -191,10 +192,20 @@ pub fn generate(rng: &mut Rng, long: bool) -> SHist {
                     if rng.bool() {
                         steps.push((3, 0));
                     }
-                    if rng.below(3) == 0 {
-                        // ignored while pending (discarded), then caught again
-                        steps.push((4, x));
-                        steps.push((5, x));
+                    match rng.below(4) {
+                        0 => {
+                            // ignored while pending (discarded), then caught again
+                            steps.push((4, x));
+                            steps.push((5, x));
+                        }
+                        1 => {
+                            // default action while blocked and pending, then a
+                            // handler again: the signal is still pending and
+                            // reaches the handler when it is unblocked
+                            steps.push((6, x));
+                            steps.push((5, x));
+                        }
+                        _ => {}
                     }
                     steps.push((1, x));
                     steps.push((3, 0));
@@ -770,6 +781,9 @@ fn sigseq_virtual(sys: &yash_env::system::r#virtual::VirtualSystem, steps: &[(u8
             5 => {
                 child.sigaction(sig, Disposition::Catch).ok();
             }
+            6 => {
+                child.sigaction(sig, Disposition::Default).ok();
+            }
             _ => note(&child),
         }
     }
@@ -845,6 +859,9 @@ fn sigseq_real(steps: &[(u8, u8)]) -> String {
                     }
                     5 => {
                         libc::signal(sig, handler as extern "C" fn(libc::c_int) as libc::sighandler_t);
+                    }
+                    6 => {
+                        libc::signal(sig, libc::SIG_DFL);
                     }
                     _ => note(),
                 }
